@@ -323,6 +323,8 @@ impl<'a> Lexer<'a> {
 
     /// Get the next token from the source
     pub fn next_token(&mut self) -> Token {
+        #[cfg(tsrun_verif)]
+        verif::bump();
         self.skip_whitespace_and_comments();
 
         self.start_pos = self.current_pos;
@@ -1462,4 +1464,22 @@ fn is_id_start_char(ch: char) -> bool {
 /// Check if a decoded character is valid as identifier continue (without escape check)
 fn is_id_continue_char(ch: char) -> bool {
     ch == '_' || ch == '$' || ch.is_ascii_alphanumeric()
+}
+
+/// Verification hook (H2, compiled only with --cfg tsrun_verif): deterministic parse-work counter
+/// (tokens scanned, including re-scans after a speculative parse is rewound).
+#[cfg(tsrun_verif)]
+pub mod verif {
+    extern crate std;
+    use std::cell::Cell;
+    std::thread_local! {
+        static WORK: Cell<u64> = const { Cell::new(0) };
+    }
+    pub(crate) fn bump() {
+        WORK.with(|w| w.set(w.get() + 1));
+    }
+    /// Tokens scanned on this thread since the last call.
+    pub fn take_work() -> u64 {
+        WORK.with(|w| w.replace(0))
+    }
 }
